@@ -97,6 +97,13 @@ func validateEncryptedDataLength(data []byte) error {
 func deriveDecryptionKey(privKey *x25519.PrivateKey, ephemeralPubBytes []byte) ([32]byte, error) {
 	log.WithField("ephemeral_pub", ephemeralPubBytes).Debug("Extracted ephemeral public key")
 
+	// X25519 ignores the most significant bit of the u-coordinate (RFC 7748), so an
+	// encoding with that bit set is a second spelling of the same key and would make the
+	// encrypted data malleable. EncryptInnerLeaseSet2 never produces one.
+	if len(ephemeralPubBytes) != x25519.PublicKeySize || ephemeralPubBytes[x25519.PublicKeySize-1]&0x80 != 0 {
+		return [32]byte{}, oops.Errorf("non-canonical ephemeral X25519 public key")
+	}
+
 	sharedSecret, err := privKey.SharedKey(ephemeralPubBytes)
 	if err != nil {
 		log.WithError(err).Error("X25519 key exchange failed")
